@@ -10,6 +10,16 @@ CHECKS = {
    text="Proof (complete for the listed edit operations): for every history of Add/Del input/output, Add_processor, Add_bond, Del_bond, Attach_benchmark_core[V2] (including negative / too-large indices and junk names) the model state is well formed and its bond set equals the name-level specification; the model is tied to the Go functions by replaying seeded random histories in both and comparing every intermediate state.",
    design_ref="DESIGN.md section 5, C10",
    note="Trusted: Coq kernel; hand-written model Net/Topo.v tied by correspondence (harness/c10.go, lib/c10.py); shared-object attach functions are not modelled (they do not touch bonds)."),
+ "C03": dict(
+   technique="Coq proof over a layout table regenerated from the Go sources by a translator; vm_compute consistency check of every layout; correspondence of model and Arch.Assembler/Machine.Disassembler",
+   text="Proof: for every layout passing the symbolic consistency check (decided for all architectures at once as equality of linear forms) and every architecture, an accepted line is exactly Max_word bits, its disassembly is the same instruction with normalised literals, re-assembling the disassembly gives the word back, and an operand longer than its field is never accepted. The table of 82 layouts (Assembler and Disassembler read independently) is re-extracted from pkg/procbuilder/op_*.go on every run and the side condition re-proved. 11 shared-object opcodes are outside the translator (correspondence-only, listed in evidence); fields wider than 63 bits printed through a signed int are excluded by hypothesis.",
+   design_ref="DESIGN.md section 5, C03",
+   note="Trusted: Coq kernel; translators/layout.py; harness/c03.go + lib/c03.py; Process_number modelled for decimal/0x/0b literals only."),
+ "C08": dict(
+   technique="Coq-verified disjointness certificate checker (Brzozowski derivatives) run by vm_compute on the matchers dumped from the running code; round-trip theorems for unsigned/hex/bin; correspondence with bmnumbers",
+   text="Proof: (uniqueness) the regular expressions registered in bmnumbers.AllMatchers are translated on every run and their pairwise disjointness is decided on the languages themselves by a checker proved sound in Coq, so no string of any length is claimed by two notations; hence ImportString is independent of map order. (round trip / widths) import(export(n)) = n for every representable unsigned-64, hex and bin number, ExportBinaryNBits has exactly n digits, ExportVerilogBinary has the stated width. Partial: floats are checked only by the Go-side round-trip predicate (strconv not modelled), FloPoCo and linear-quantiser types are not modelled; sized-unsigned export is a recorded finding.",
+   design_ref="DESIGN.md section 5, C08",
+   note="Trusted: Coq kernel; translators/regex.py (validated against regexp.MatchString each run); harness/c08.go + lib/c08.py; Front/Numbers.v is a value-level model."),
 }
 NOT_APPLICABLE = []
 
